@@ -1,0 +1,64 @@
+// SPDX-FileCopyrightText: 2026 The Pion community <https://pion.ly>
+// SPDX-License-Identifier: MIT
+
+//go:build verif
+
+package h265writer
+
+// Spec functions for the contract-based verification in /verif (build tag verif).
+
+// specKeyType265: VPS (32), SPS (33), PPS (34), IDR_W_RADL (19), IDR_N_LP (20) — the
+// property's definition of a keyframe for H.265.
+func specKeyType265(t byte) bool {
+	return t == 32 || t == 33 || t == 34 || t == 19 || t == 20
+}
+
+// specNaluType265: the type field of the first byte of a NAL unit / payload header.
+func specNaluType265(b byte) byte {
+	return (b & 0x7E) >> 1
+}
+
+// specAPFirstKey: an aggregation packet (RFC 7798 4.4.2) whose first aggregated unit is
+// complete, non-empty and of a keyframe type.
+func specAPFirstKey(d []byte) bool {
+	if len(d) < 5 {
+		return false
+	}
+	size := int(d[2])<<8 | int(d[3])
+
+	return size > 0 && 4+size <= len(d) && specKeyType265(specNaluType265(d[4]))
+}
+
+// specKeyStart265: the RTP payload starts a keyframe: a single NAL unit packet of a
+// keyframe type, an aggregation packet (48) whose first unit is one, or the first
+// fragment (S bit) of a fragmentation unit (49) whose FuType (low 6 bits of the FU
+// header, RFC 7798 4.4.3) is one.
+func specKeyStart265(d []byte) bool {
+	if len(d) < 2 {
+		return false
+	}
+	switch specNaluType265(d[0]) {
+	case 48:
+		return specAPFirstKey(d)
+	case 49:
+		return len(d) >= 3 && d[2]&0x80 != 0 && specKeyType265(d[2]&0x3F)
+	}
+
+	return specKeyType265(specNaluType265(d[0]))
+}
+
+// specKeyPlain265: the non-aggregated part of "may be treated as a keyframe packet":
+// a single NAL unit of a keyframe type or any fragment of one.
+func specKeyPlain265(d []byte) bool {
+	if len(d) < 2 {
+		return false
+	}
+	switch specNaluType265(d[0]) {
+	case 48:
+		return false
+	case 49:
+		return len(d) >= 3 && specKeyType265(d[2]&0x3F)
+	}
+
+	return specKeyType265(specNaluType265(d[0]))
+}
